@@ -25,6 +25,10 @@ type memConn struct {
 	edits     map[int]edit
 	woff      int
 	userClose bool
+	altered   *[]byte // what was actually put on the wire towards the peer (after edits)
+	// deadlock detection: both ends blocked in Read with nothing in flight
+	waiting    *int
+	deadlocked *bool
 }
 
 // edit alters the byte at one absolute offset of a stream: kind 's' substitute, 'd' delete, 'i' insert val before it.
@@ -37,7 +41,26 @@ type edit struct {
 func (c *memConn) SetEdits(e map[int]edit) {
 	c.mu.Lock()
 	c.edits = e
+	alt := []byte{}
+	c.altered = &alt
 	c.mu.Unlock()
+}
+
+// Altered returns the bytes that were actually put on the wire by this end (after the edits).
+func (c *memConn) Altered() []byte {
+	c.mu.Lock()
+	defer c.mu.Unlock()
+	if c.altered == nil {
+		return append([]byte(nil), (*c.sent)...)
+	}
+	return append([]byte(nil), (*c.altered)...)
+}
+
+// Deadlocked reports whether both ends ended up waiting for each other.
+func (c *memConn) Deadlocked() bool {
+	c.mu.Lock()
+	defer c.mu.Unlock()
+	return *c.deadlocked
 }
 
 // ClosedByUser reports whether Close was called on this end.
@@ -66,8 +89,9 @@ func newMemPipe(segA, segB func() int) (*memConn, *memConn) {
 	ba := &memBuf{limit: -1}
 	closed := false
 	sa, sb := []byte{}, []byte{}
-	a := &memConn{mu: mu, cond: cond, in: ba, out: ab, closed: &closed, name: "A", seg: segA, sent: &sa}
-	b := &memConn{mu: mu, cond: cond, in: ab, out: ba, closed: &closed, name: "B", seg: segB, sent: &sb}
+	waiting, dead := 0, false
+	a := &memConn{mu: mu, cond: cond, in: ba, out: ab, closed: &closed, name: "A", seg: segA, sent: &sa, waiting: &waiting, deadlocked: &dead}
+	b := &memConn{mu: mu, cond: cond, in: ab, out: ba, closed: &closed, name: "B", seg: segB, sent: &sb, waiting: &waiting, deadlocked: &dead}
 	return a, b
 }
 
@@ -111,7 +135,18 @@ func (c *memConn) Read(p []byte) (int, error) {
 		if c.in.eof {
 			return 0, io.EOF
 		}
+		*c.waiting++
+		if *c.waiting >= 2 && len(c.out.data) == 0 && !c.out.eof {
+			// both sessions wait for bytes and nothing is in flight: the exchange is stalled for good.
+			// Treated as the link timing out (both ends see it dead).
+			*c.deadlocked = true
+			*c.closed = true
+			*c.waiting--
+			c.cond.Broadcast()
+			return 0, io.EOF
+		}
 		c.cond.Wait()
+		*c.waiting--
 	}
 }
 
@@ -122,6 +157,12 @@ func (c *memConn) Write(p []byte) (int, error) {
 		return 0, net.ErrClosed
 	}
 	*c.sent = append(*c.sent, p...)
+	before := len(c.out.data)
+	defer func() {
+		if c.altered != nil && len(c.out.data) >= before {
+			*c.altered = append(*c.altered, c.out.data[before:]...)
+		}
+	}()
 	if c.edits == nil {
 		c.out.data = append(c.out.data, p...)
 		c.woff += len(p)
